@@ -81,6 +81,24 @@ CHECKS.update({
         'the zero-padded FFT autocorrelation is replaced by its mathematical meaning (direct sums) and validated per case to 1e-9; sqrt and float matrix products by tolerance',
         '4/C06',
     ),
+    'C08': (
+        'Theorems (GProofs/C08.lean): np.digitize against the linspace edges = floor(x*n) on [0,1) (digitize_eq_floor), the index lies in the '
+        'grid, the voxel counts sum to the number of samples for every sample list and grid (counts_sum) and entry (i,j,k) is the number of '
+        'samples with that floor index (counts_get), n = floor(L/res) gives res <= L/n < 2 res, voxel -> centre -> voxel is the identity for '
+        'every grid size (roundtrip). Tie: counts exact vs model and vs exact floor on dyadic and non-dyadic coordinate grids, pool lattices x 6 resolutions; '
+        'float round trip for every voxel of every grid size up to 2000 (quick) / 20000 (thorough).',
+        'IEEE: a coordinate within 2^-50 of a non-representable boundary k/n is only checked for conservation; cases with L/res within 1e-9 of an integer are skipped; '
+        'the float round trip is enumerated, not proved (the theorem is over Q)',
+        '4/C08',
+    ),
+    'C09': (
+        'Theorems over the reals (GProofs/C09.lean, Real.log): exp(-F/kT) = d/S, these sum to one over the visited voxels of any finite grid, '
+        'denser never higher (F_antitone), F >= 0, an unvisited voxel (largest double) is never a graph node for any threshold <= BIG incl. 1e20 and 1e7, '
+        'a visited voxel is a node iff F < threshold. Tie: value (1e-9 vs independent evaluation, 1e-12 vs the Lean binary64 twin, bit-identical in practice), '
+        'finiteness, rank order and node sets exactly, on random integer density grids x 3 temperatures x 4 thresholds.',
+        'np.log / Float.log are opaque to proof: the theorems are about Real.log and the numeric value is tolerance-compared (partial w.r.t. IEEE)',
+        '4/C09',
+    ),
     'C13': (
         'Theorems (GProofs/C13.lean) on the list-level model that follows the code path (selection through filter = through wrapped '
         'positions): the corrected trajectory keeps the original base positions and first frame; under SmallSteps and a non-empty '
